@@ -35,7 +35,19 @@ def main(argv=None):
         if a.replay:
             data = json.load(open(a.replay))
             return mod.replay(ctx, data["replay"]) if hasattr(mod, "replay") else 2
-        mod.run(ctx)
+        try:
+            mod.run(ctx)
+        except Exception:
+            if not ctx.violations:
+                raise
+            # a machinery problem AFTER violations were established (typically a self-test that the tree under test
+            # breaks as well) must not hide them: report what was found, exit 1
+            traceback.print_exc()
+            print("MACHINERY-PROBLEM property=%s after %d violation(s) had been found; reporting those" % (a.pid, len(ctx.violations)))
+            ctx.notes.append("run aborted by a machinery problem after violations had been found")
+            ctx.cov["states"] = max(1, ctx.cov["states"]); ctx.cov["transitions"] = max(1, ctx.cov["transitions"])
+            if not ctx.cov["samples"]:
+                ctx.cov["samples"].append({"note": "aborted run"})
         return core.finish(ctx, getattr(mod, "LEVEL", "model_checking"))
     except Exception:
         traceback.print_exc()
